@@ -392,6 +392,9 @@ def check(ctx):
               "the struct map handed to the types renderer originates from collect_used_types, not from the full discovered set; Result keeps only the success type",
               "emitting the discovered set declares unreachable decoy types; keeping error arms declares types that only surface as rejections")
     check_closure_before_insert(P, r3)
+    # the analyzer's own closure (resolve_types_lazily) loses nothing it harvested from a field (shared with C09-D4 and C18-D6)
+    from c09 import check_harvest_reaches_record
+    check_harvest_reaches_record(P, r3)
     gens = [t for t in P.trait_impls.get(GEN_MODELS, []) if t in P.fns]
     for gid in gens:
         f = P.fns[gid]
